@@ -15,11 +15,11 @@ open PCQ
 /-- a slot is never written while it still holds an unconsumed value or is being read, and never
     read while empty or being written. -/
 theorem pcq_slot_safety (p : Params) (hc : 1 ≤ p.cap) (s : State) (hr : Reachable p s) : s.bad = false := by
-  sorry
+  exact (PV.Lemmas.Queues.PCQ.inv_of_reachable hc hr).nb
 
 /-- items come out in the order they went in (global FIFO of the ring). -/
 theorem pcq_fifo (p : Params) (hc : 1 ≤ p.cap) (s : State) (hr : Reachable p s) : s.reads <+: s.writes := by
-  sorry
+  exact (PV.Lemmas.Queues.PCQ.inv_of_reachable hc hr).fifo
 
 /-- each producer's items are written in that producer's order, and what a consumer received is a
     subsequence of the read order (so: in production order per producer). -/
@@ -28,18 +28,20 @@ theorem pcq_per_producer_order (p : Params) (hc : 1 ≤ p.cap)
     (s : State) (hr : Reachable p s) :
     (∀ i, (s.writes.filter (fun it => it.1 == i)) <+: p.items.getD i []) ∧
     (∀ (j : Nat) (c : Cons), s.cons[j]? = some c → c.got.Sublist s.reads) := by
-  sorry
+  have h3 := PV.Lemmas.Queues.PCQ.inv3_of_reachable hc hid hr
+  exact ⟨fun i => by rw [h3.ord i]; exact List.take_prefix _ _, h3.sub⟩
 
 /-- exactly once: when everybody is done, the consumers together hold exactly the produced items. -/
 theorem pcq_exactly_once (p : Params) (hc : 1 ≤ p.cap) (hq : totalItems p = totalQuota p)
     (s : State) (hr : Reachable p s) (hf : Final p s) :
     s.reads = s.writes ∧ s.writes.Perm p.items.flatten ∧ (s.cons.map (·.got)).flatten.Perm p.items.flatten := by
-  sorry
+  exact PV.Lemmas.Queues.PCQ.exactly_once hq (PV.Lemmas.Queues.PCQ.inv_of_reachable hc hr)
+    (PV.Lemmas.Queues.PCQ.inv2_of_reachable hc hr) hf
 
 /-- no thread is left blocked forever while matching producers / consumers exist. -/
 theorem pcq_no_deadlock (p : Params) (hc : 1 ≤ p.cap) (hq : totalItems p = totalQuota p)
     (s : State) (hr : Reachable p s) : Final p s ∨ ∃ l s', step p s l = some s' := by
-  sorry
+  exact PV.Lemmas.Queues.PCQ.no_deadlock hc hq (PV.Lemmas.Queues.PCQ.inv_of_reachable hc hr)
 end PCQ
 
 /-! ### UnboundedSingleQueue -/
@@ -67,37 +69,44 @@ open Ring
 /-- the caller and the writer thread never hold the same block. -/
 theorem ring_exclusive (p : Params) (hn : 2 ≤ p.nBlocks) (hb : 1 ≤ p.blockSize) (s : State) (hr : Reachable p s) :
     s.bad = false := by
-  sorry
+  obtain ⟨A, D, Qd, h⟩ := PV.Lemmas.Queues.Ring.reach_inv (by omega) hb hr
+  exact h.bad
 
 /-- the bytes given to the Writer are always a prefix of the concatenation of all write() calls, -/
 theorem ring_bytes_prefix (p : Params) (hn : 2 ≤ p.nBlocks) (hb : 1 ≤ p.blockSize) (s : State) (hr : Reachable p s) :
     s.file <+: p.calls.flatten := by
-  sorry
+  obtain ⟨A, D, Qd, h⟩ := PV.Lemmas.Queues.Ring.reach_inv (by omega) hb hr
+  exact PV.Lemmas.Queues.Ring.inv_prefix h
 
 /-- and once the destructor has returned the file is exactly that concatenation. -/
 theorem ring_bytes (p : Params) (hn : 2 ≤ p.nBlocks) (hb : 1 ≤ p.blockSize) (s : State) (hr : Reachable p s)
     (hf : Final s) : s.file = p.calls.flatten := by
-  sorry
+  obtain ⟨A, D, Qd, h⟩ := PV.Lemmas.Queues.Ring.reach_inv (by omega) hb hr
+  exact PV.Lemmas.Queues.Ring.inv_final h hf
 
 /-- destroying the stream always flushes the remainder and joins: no reachable state is stuck before
     the destructor has returned. -/
 theorem ring_no_deadlock (p : Params) (hn : 2 ≤ p.nBlocks) (hb : 1 ≤ p.blockSize) (s : State) (hr : Reachable p s) :
     Final s ∨ ∃ l s', step p s l = some s' := by
-  sorry
+  obtain ⟨A, D, Qd, h⟩ := PV.Lemmas.Queues.Ring.reach_inv (by omega) hb hr
+  exact PV.Lemmas.Queues.Ring.inv_no_deadlock hn h
 
 /-- every execution is finite. -/
 theorem ring_terminates (p : Params) (hn : 2 ≤ p.nBlocks) (hb : 1 ≤ p.blockSize) :
     ∃ μ : State → Nat, ∀ s l s', Reachable p s → step p s l = some s' → μ s' < μ s := by
-  sorry
+  have _ := hn
+  exact ⟨PV.Lemmas.Queues.Ring.mu, fun _ _ _ _ hs => PV.Lemmas.Queues.Ring.mu_decreases hb hs⟩
 
 /-- the ring in the source has enough blocks for these theorems (regenerated constant). -/
 theorem kBlocks_ok : 2 ≤ PV.Gen.kBlocks ∧ 1 ≤ PV.Gen.kBlockSize := by
-  sorry
+  decide
 
 /-- with a single block the stream would deadlock (why `2 ≤ nBlocks` is needed). -/
 theorem ring_deadlocks_with_one_block :
     ∃ (p : Params) (s : State), p.nBlocks = 1 ∧ 1 ≤ p.blockSize ∧ Reachable p s ∧ ¬ Final s ∧ ∀ l, step p s l = none := by
-  sorry
+  -- witness: `⟨1, 1, []⟩` after `[pAcquire, pSpill, cAcquire, cWrite]` (the caller waits for a block, the writer has exited)
+  exact ⟨PV.Lemmas.Queues.Ring.p1, PV.Lemmas.Queues.Ring.s1, rfl, Nat.le_refl 1, PV.Lemmas.Queues.Ring.s1_reachable,
+    PV.Lemmas.Queues.Ring.s1_not_final, PV.Lemmas.Queues.Ring.s1_stuck⟩
 end Ring
 
 -- non-vacuity: a complete PCQueue run with capacity 1
